@@ -3,7 +3,7 @@ The granularity of the L3 `Net` model, tied to the source.
 
 `Model/Net.lean` takes `setcallback` (detach the queue, replay the backlog, register the callback), the handling of
 one incoming message, the receiver epilogue `_finished_receiving`, the allocation of a channel id and the writing of
-one frame as single atomic steps.  That is sound only because the code runs each of them inside one critical section
+one frame as single atomic steps, and `new` refuses a finished factory inside the same critical section that registers the channel.  That is sound only because the code runs each of them inside one critical section
 (`_receivelock` / `_writelock` / `_sendlock`).  The translator reads the lock every such statement runs under off the
 current source (`Generated.criticalSections`); this theorem pins the table.  `Channel.receive` takes an item and puts the
 ENDMARKER back WITHOUT a lock — the finer model `Model/NetFine.lean` and its refinement theorem cover that.
@@ -21,6 +21,7 @@ theorem Net_granularity_pinned :
        ("Channel.setcallback", "putback", "self.gateway._receivelock"),
        ("Channel.receive", "get", "-"),
        ("Channel.receive", "putback", "-"),
+       ("ChannelFactory.new", "finished-check", "self._writelock"),
        ("ChannelFactory.new", "read-count", "self._writelock"),
        ("ChannelFactory.new", "advance-count", "self._writelock"),
        ("ChannelFactory.new", "table-insert", "self._writelock"),
